@@ -907,6 +907,7 @@ func checkC15(c *Ctx) {
 	c.NotDecided("end-to-end roaming behaviour over histories; correctness of the replay filter itself (C14)")
 
 	fAddr := P.Field("transport", "SessionState", "remoteAddr")
+	c15R4(c)
 	if fAddr == nil {
 		c.Undecided("C15.R1", "transport.SessionState.remoteAddr", "field not found")
 		return
@@ -1214,4 +1215,136 @@ func sliceRootParam(fn *ssa.Function, v ssa.Value, k, depth int) bool {
 		}
 	}
 	return false
+}
+
+// c15R4: "came from a new address" is an exact comparison. Both handlers move the peer address when
+// EqualUDPAddress(stored, source) is false. If that helper calls two different addresses equal, an
+// authentic packet from the new address is delivered but the session keeps sending to the old one. So
+// EqualUDPAddress returns true only on paths where the two pointers are identical, or the ports and the
+// zones were found equal and the IPs were found equal by net.IP.Equal, or by an equality test on
+// injective images of both (To16, String, MarshalText — the C19 allow-list; To4 maps every IPv6 address
+// to nil).
+func c15R4(c *Ctx) {
+	P := c.P
+	const rule = "C15.R4"
+	c.Rule(rule, "a new address is recognised as new: EqualUDPAddress returns true only where the pointers are identical, or port and zone were found equal and the IPs equal through net.IP.Equal or an equality test on injective images of both (To16 / String / MarshalText; not To4, which maps every IPv6 address to nil) — otherwise an authentic packet from a new address does not move the session (E1 decision table)")
+	fn := P.Func("transport", "EqualUDPAddress")
+	if fn == nil || len(fn.Params) != 2 {
+		c.Undecided(rule, "transport.EqualUDPAddress", "function not found")
+		return
+	}
+	name := FuncName(fn)
+	c.Analysed(name)
+	fieldOfParam := func(v ssa.Value, field string) int {
+		// v is a load of <param>.<field>: which parameter?
+		u, ok := strip(v).(*ssa.UnOp)
+		if !ok || u.Op != token.MUL {
+			return -1
+		}
+		fa, ok := u.X.(*ssa.FieldAddr)
+		if !ok {
+			return -1
+		}
+		if f := fieldOf(fa.X.Type(), fa.Field); f == nil || f.Name() != field {
+			return -1
+		}
+		return paramIndex(fn, fa.X)
+	}
+	// image(v): v is <param>.IP, possibly through injective calls; returns param index, ok
+	var image func(v ssa.Value, depth int) (int, bool)
+	image = func(v ssa.Value, depth int) (int, bool) {
+		if depth > 4 {
+			return -1, false
+		}
+		if k := fieldOfParam(v, "IP"); k >= 0 {
+			return k, true
+		}
+		switch x := strip(v).(type) {
+		case *ssa.Call:
+			if ipInjective[calleeID(x)] && len(x.Call.Args) >= 1 {
+				return image(x.Call.Args[0], depth+1)
+			}
+			return -1, false
+		case *ssa.Convert:
+			return image(x.X, depth+1)
+		case *ssa.ChangeType:
+			return image(x.X, depth+1)
+		}
+		return -1, false
+	}
+	fs := newFailSet()
+	trues := 0
+	ok := walkAll(c, rule, fn, func(p *Path) {
+		r := p.Returns()
+		if r == nil || len(r.Results) != 1 {
+			return
+		}
+		last := len(p.Blocks) - 1
+		if v, isC := pathBool(p, r.Results[0], last); isC && !v {
+			return
+		}
+		trues++
+		facts := map[atomKey]bool{}
+		for k, v := range p.FactsAt(last) {
+			facts[k] = v
+		}
+		// returning the value of a comparison: on a path that yields true, that comparison holds
+		if rv := p.Resolve(r.Results[0], last); rv != nil {
+			if _, isConst := rv.(*ssa.Const); !isConst {
+				k, pol := normCond(rv)
+				facts[k] = pol
+			}
+		}
+		same, port, zone, ip := false, false, false, false
+		for key, val := range facts {
+			if key.op == token.EQL && key.y != nil && val {
+				if paramIndex(fn, key.x) >= 0 && paramIndex(fn, key.y) >= 0 && paramIndex(fn, key.x) != paramIndex(fn, key.y) {
+					same = true
+				}
+				for _, fld := range []string{"Port", "Zone"} {
+					a, b := fieldOfParam(key.x, fld), fieldOfParam(key.y, fld)
+					if a >= 0 && b >= 0 && a != b {
+						if fld == "Port" {
+							port = true
+						} else {
+							zone = true
+						}
+					}
+				}
+			}
+			if key.op == token.ILLEGAL && val {
+				if call, isCall := key.x.(*ssa.Call); isCall && calleeID(call) == "(net.IP).Equal" && len(call.Call.Args) == 2 {
+					a, okA := image(call.Call.Args[0], 0)
+					b, okB := image(call.Call.Args[1], 0)
+					if okA && okB && a != b {
+						ip = true
+					}
+				}
+			}
+		}
+		for _, pr := range knownEqual(p, last) {
+			a, okA := image(pr[0], 0)
+			b, okB := image(pr[1], 0)
+			if okA && okB && a != b {
+				ip = true
+			}
+		}
+		if !(same || (port && zone && ip)) {
+			missing := ""
+			if !port {
+				missing += " port"
+			}
+			if !zone {
+				missing += " zone"
+			}
+			if !ip {
+				missing += " IP (net.IP.Equal or an injective image)"
+			}
+			fs.add("exact", "EqualUDPAddress can call two addresses equal without having found equal:"+missing+": an authentic packet from such a new address is delivered but the session keeps sending to the old one", p.Exit(), p)
+		}
+	})
+	if ok {
+		fs.report(c, rule, name, []string{"exact"}, P.Pos(fn.Pos()), fmt.Sprintf("holds on all %d paths that may return true", trues))
+		c.Floor(rule, "paths of EqualUDPAddress that may return true", trues, 2)
+	}
 }
